@@ -259,10 +259,16 @@ func main() {
 	var qa, qv []string
 	for i := range args {
 		qa = append(qa, "."+args[i])
-		qv = append(qv, strconv.Quote(verbs[i]))
+		switch verbs[i] {
+		case "%s", "%f", "%d", "%v":
+			qv = append(qv, "."+verbs[i][1:])
+		default:
+			die("verb %q is not one of %%s %%f %%d %%v", verbs[i])
+		}
 	}
+	b.WriteString("/-- the `fmt` verbs the marker string may use -/\ninductive Verb where\n  | s | f | d | v\nderiving DecidableEq, Repr\n\n")
 	fmt.Fprintf(&b, "/-- verifyFreeAllocationRequestNew: `fmt.Sprintf(markerFormat, markerArgs...)` is the signed string -/\ndef markerFormat : String := %q\n", format)
-	fmt.Fprintf(&b, "def markerArgs : List MField := [%s]\ndef markerVerbs : List String := [%s]\n\n", strings.Join(qa, ", "), strings.Join(qv, ", "))
+	fmt.Fprintf(&b, "def markerArgs : List MField := [%s]\ndef markerVerbs : List Verb := [%s]\n\n", strings.Join(qa, ", "), strings.Join(qv, ", "))
 	b.WriteString("/-- validate passes the assigner's stored PublicKey to verifyFreeAllocationRequestNew, which verifies frm.Signature over the marker string under it -/\ndef verifiedUnderAssignerKey : Bool := true\n\n")
 	fmt.Fprintf(&b, "def floatToBalance : Nat := %s\n\nend ZChain.Generated.C24\n", floatToBalance)
 	if err := os.WriteFile(out, []byte(b.String()), 0o644); err != nil {
